@@ -1,6 +1,6 @@
 (* evaluator for the message-level model of a whole transfer (C01, Model/Transfer.v)
 
-   transfer_transcript cfg table dest fs dflt entries
+   transfer_transcript cfg table dest fs dflt entries tags
      cfg      proto:binary:directory:overwrite:ctype:upload        (numbers / 0|1)
      table    escape table, hex of the (byte, code) pairs in announcement order, - = none
      dest     destination path, hex components joined by /
@@ -15,6 +15,9 @@
                 profit   0|1 (the COMP flag if one was sent)
                 steps    saved steps of the per-frame acks, joined by .
                 prefinal saved steps of the final acks before completion, joined by .
+     tags     one letter per message of the REAL exchange, both directions merged in the order of
+              recording, window acks moved behind the finish flag (N M Z C D F A 5 X S, O = other):
+              evaluated with the model's grammar automaton (ORDER=)
 
    The Section variables of Transfer.v: digest := byte list; H := lookup content -> md5 in the
    case; deq := (=); zcomp := lookup content -> [z] (chunks unchanged when the case has no z);
@@ -67,7 +70,7 @@ let str_of_msg (m : n list Transfer.tr_msg) =
   | Transfer.TrFail -> "FAIL"
 
 let () =
-  register "transfer_transcript" (function [cfg; table; dest; pre; dflt; entries] ->
+  register "transfer_transcript" (function [cfg; table; dest; pre; dflt; entries; tags] ->
       let cfg = match String.split_on_char ':' cfg with
         | [proto; bin; dir; ow; ctype; up] ->
           { Transfer.tc_proto = n_of_int (int_of_string proto); tc_binary = bool_of bin; tc_directory = bool_of dir;
@@ -122,9 +125,17 @@ let () =
             Some (match nd_ with
                 | Fs.Dir -> "d:" ^ k
                 | Fs.File c -> Printf.sprintf "f:%s:%d:%s" k (List.length c) (Digest.to_hex (Digest.string (str_of_bytes c)))) end) inside) in
-      Printf.sprintf "S=%s|R=%s|SN=%s|RN=%s|NEW=%s|SHAPE=%s|TREE=%s|C2S=%s|S2C=%s"
+      (* the tags of the REAL merged transcript (acks of the window moved behind the finish flag)
+         run through the model's automaton *)
+      let dummy c : n list Transfer.tr_msg = match c with
+        | 'N' -> Transfer.TrNum N0 | 'M' -> Transfer.TrName (Transfer.TrPlain []) | 'Z' -> Transfer.TrSize N0
+        | 'C' -> Transfer.TrComp false | 'D' -> Transfer.TrData [N0] | 'F' -> Transfer.TrData []
+        | 'A' -> Transfer.TrSuccAck (N0, N0) | '5' -> Transfer.TrMd5 [] | 'X' -> Transfer.TrExit []
+        | 'S' -> Transfer.TrSuccInt N0 | _ -> Transfer.TrFail in
+      let order = tr_shape_ok pipeline (List.init (String.length tags) (fun i -> (true, dummy tags.[i]))) in
+      Printf.sprintf "S=%s|R=%s|SN=%s|RN=%s|NEW=%s|SHAPE=%s|TREE=%s|C2S=%s|S2C=%s|ORDER=%s"
         (b01 (tr_sender_ok cf)) (b01 (tr_receiver_ok cf))
         (hexs cf.Transfer.cf_s.Transfer.ss_names) (hexs cf.Transfer.cf_r.Transfer.rs_names)
         (String.concat "," tops) (b01 (tr_shape_ok pipeline cf.Transfer.cf_log))
-        (String.concat "," tree) c2s s2c
+        (String.concat "," tree) c2s s2c (b01 order)
     | _ -> "?args")
